@@ -713,6 +713,16 @@ impl Program {
             }
         }
 
+        for (name, span) in &assign_spans {
+            if constants_raw.contains_key(name) {
+                errors.push(Error::ConstantAssigned {
+                    name: String::from(*name),
+                    assign_span: *span,
+                    const_span: *wire_decl_spans.get(name).unwrap(),
+                });
+            }
+        }
+
         debug!("const decls: {:?}", constants_raw);
         debug!("wire decls: {:?}", wires);
         debug!("assignments: {:?}", assignments);
